@@ -126,10 +126,27 @@ namespace nmtools::view
 
         auto axis = meta::ct_v<-1>;
 
-        return view::sum(
+        auto result = view::sum(
             view::multiply(view::reshape(a_lhs,dst_shape),a_rhs)
             , axis
         );
+        using result_t = decltype(result);
+        // the contracted (last) axes must have the same extent, they are not broadcast against each other;
+        // for shapes that are only known at run time so is their compatibility: Nothing
+        if constexpr (meta::is_maybe_v<result_t>
+            && meta::is_index_array_v<decltype(lhs_shape)>
+            && meta::is_index_array_v<decltype(rhs_shape)>
+        ) {
+            const auto& l_shape = lhs_shape;
+            const auto& r_shape = rhs_shape;
+            auto lhs_dim = (nm_size_t)len(l_shape);
+            auto rhs_dim = (nm_size_t)len(r_shape);
+            auto aligned = (lhs_dim == 0) || (rhs_dim == 0)
+                || ((nm_size_t)at(l_shape,lhs_dim-1) == (nm_size_t)at(r_shape,rhs_dim-1));
+            return (aligned ? result : result_t{meta::Nothing});
+        } else {
+            return result;
+        }
     }
 } // nmtools::view
 
